@@ -14,6 +14,7 @@ func init() {
 	verifrt.Register("Harness_C11_AcceptanceCannotBeReplayed", Harness_C11_AcceptanceCannotBeReplayed)
 	verifrt.Register("HarnessT_C07_ThreeProducersGetConsecutiveNonces", HarnessT_C07_ThreeProducersGetConsecutiveNonces)
 	verifrt.Register("Harness_C02_SecondReceiveOfTheSamePairFails", Harness_C02_SecondReceiveOfTheSamePairFails)
+	verifrt.Register("Harness_C04_SameBurnMessageMintsOnce", Harness_C04_SameBurnMessageMintsOnce)
 	verifrt.Register("Harness_C12_PauseThenUnpauseRestoresSending", Harness_C12_PauseThenUnpauseRestoresSending)
 }
 
@@ -129,6 +130,32 @@ func Harness_C02_SecondReceiveOfTheSamePairFails() {
 	}
 	_, e2 := h.S.ReceiveMessage(ctx, &types.MsgReceiveMessage{From: f2.Str, Message: m2, Attestation: a2})
 	verifrt.Assert("C02/sequence/second-receive-of-the-pair-fails", e2 != nil)
+}
+
+// the same attested burn message delivered twice: whatever the second delivery returns, it adds no mint
+// (C04: total minted is the sum over the DISTINCT accepted burn messages)
+func Harness_C04_SameBurnMessageMintsOnce() {
+	h := newH("")
+	c := smallCaps()
+	c.att = 66
+	c.msg = 116 + 132
+	h.setupHonestState(1, 1, c)
+	ctx := h.Env.Ctx
+	m := verifrt.NondetBytes("m1_message", c.msg)
+	a := verifrt.HonestAttestation("m1_attestation", m, 1)
+	verifrt.Assume(refAttestationValid(m, a, h.Att, 1, 1))
+	f1, f2 := verifrt.NondetAddr("from1"), verifrt.NondetAddr("from2")
+	_, e1 := h.S.ReceiveMessage(ctx, &types.MsgReceiveMessage{From: f1.Str, Message: m, Attestation: a})
+	if e1 != nil {
+		verifrt.Cover("first-rejected")
+		return
+	}
+	n1 := len(h.Env.FTF.Mints)
+	if n1 == 1 {
+		verifrt.Cover("first-minted")
+	}
+	_, e2 := h.S.ReceiveMessage(ctx, &types.MsgReceiveMessage{From: f2.Str, Message: append([]byte{}, m...), Attestation: append([]byte{}, a...)})
+	verifrt.Assert("C04/sequence/replayed-burn-message-mints-nothing", verifrt.Any(e2 != nil, len(h.Env.FTF.Mints) == n1))
 }
 
 // pausing then unpausing restores the previous behaviour of SendMessage
